@@ -133,6 +133,12 @@ class Ctx:
             # heartbeat for the parent's watchdog: when this case started
             j[len(j) - 16:len(j) - 8] = struct.pack("<d", time.time())
 
+    def idle(self):
+        """No library call under watch (between cases, during set-up, generation and shrinking bookkeeping)."""
+        j = self.journal
+        if j is not None:
+            j[len(j) - 16:len(j) - 8] = struct.pack("<d", 0.0)
+
     def count(self, case, nontrivial, cls=None):
         """Record one executed case. nontrivial: met the property's stated rule."""
         self.evaluations += 1
@@ -170,6 +176,7 @@ def _write_replay(pid, sub, cfg, case, v, vseed):
 def _run_sub(ctx, sub, cfg, n, libs):
     """Run one subcheck under Hypothesis in this worker. Returns failure tuple or None."""
     ctx.sub, ctx.cfg = sub.name, cfg
+    ctx.idle()      # set-up work (loading libraries, parsing assembly listings) is not a library call under watch
     env = sub.setup(cfg) if sub.setup else libs(cfg)
     state = {"last": None}
     known = ctx.known
@@ -178,7 +185,9 @@ def _run_sub(ctx, sub, cfg, n, libs):
         ctx.log_case(case)
         try:
             sub.fn(ctx, env, case)
+            ctx.idle()
         except Violation as v:
+            ctx.idle()
             k = known.get((ctx.pid, v.sig))
             if k is not None:
                 ctx.known_hits[v.sig] += 1
